@@ -1080,6 +1080,12 @@ func (c *c15Case) run(tier string) {
 			if len(payload) <= maxMsgSizeBytes-16 && cls == "toobig" {
 				o.Fail(c.step, "small-message-refused", fmt.Sprint(len(payload)))
 			}
+			if direct && len(payload) <= maxMsgSizeBytes && cls == "toobig" {
+				o.Fail(c.step, "size-limit-too-strict", fmt.Sprintf("Encode refused a payload of %d bytes (limit %d)", len(payload), maxMsgSizeBytes))
+			}
+			if direct && len(payload) > maxMsgSizeBytes && cls != "toobig" {
+				o.Fail(c.step, "oversize-not-refused", fmt.Sprintf("Encode accepted a payload of %d bytes (limit %d)", len(payload), maxMsgSizeBytes))
+			}
 		}
 		if strings.HasPrefix(cls, "err") {
 			o.Fail(c.step, "write-error", fmt.Sprint(werr))
@@ -1118,6 +1124,28 @@ func (c *c15Case) run(tier string) {
 		}
 		if r.Chance(1, 4) {
 			tick()
+		}
+		if r.Chance(1, 6) {
+			// head-size boundary: limit := size of the head file on disk, -1, +1; then the ticker's check
+			grp.FlushAndSync()
+			flushed = true
+			c.op("F", "f "+c15GroupObs(grp))
+			sz, _ := grp.Head.Size()
+			d := int64(r.Intn(3) - 1)
+			nl := sz + d
+			if nl == 0 {
+				nl = 1
+			}
+			grp.VerifSetHeadSizeLimit(nl)
+			c.op(fmt.Sprintf("L %d", nl), "")
+			before := grp.MaxIndex()
+			tick()
+			rotated := grp.MaxIndex() != before
+			// direct oracle: rotate iff size >= limit
+			if rotated != (sz >= nl) {
+				o.Fail(c.step, "head-size-limit", fmt.Sprintf("size=%d limit=%d rotated=%v", sz, nl, rotated))
+			}
+			o.Mark(fmt.Sprintf("limit-boundary:%+d", d))
 		}
 		if r.Chance(1, 25) {
 			func() {
